@@ -183,6 +183,55 @@ func properties() map[string]*PropertyDef {
 		LevelNote:   "assumed library contracts (slices, maps, builtins); undecided clauses listed under assumptions; trusted: go/ssa lowering of generic bodies, govc encoding, solvers",
 		Technique:   "contract-based deductive verification (govc): object invariants + two-state postconditions on generic code, ghost callback log, lemma calls, WP over go/ssa, z3/cvc5",
 	})
+	cacheFuncs := []string{"cache.newCache", "cache.(*cache).Set", "cache.(*cache).Get", "cache.(*cache).Del", "cache.(*cache).Clear", "cache.(*cache).Stats"}
+	ps = append(ps, &PropertyDef{
+		ID:         "C09",
+		Patterns:   []string{"./cache"},
+		Funcs:      cacheFuncs,
+		Sequential: true,
+		NeedsClauses: map[string][]string{
+			"cache.(*cache).Set":   {"too_large_refused", "full_without_lru_refused", "stored", "without_lru_reports_replacement", "monitor_invariant/count_bound", "nil/"},
+			"cache.(*cache).Get":   {"hit_value", "miss_nil", "entries_unchanged"},
+			"cache.(*cache).Del":   {"removed", "others_kept", "size_accounting", "nil/"},
+			"cache.(*cache).Clear": {"emptied"},
+			"cache.(*cache).Stats": {"snapshot", "read_only"},
+			"cache.newCache":       {"created", "empty"},
+		},
+		Assumptions: []string{
+			"PARTIAL CLAIM. Decided: no call panics (nil dereference, map write to nil map, bounds) for every Config and every state satisfying the object invariant, including re-entrant calls from OnDelete (state forgotten and invariant re-assumed across the callback); Count <= MaxCount at every unlock; Get/Del/Clear/Stats and the refusal / store cases of Set against the map view; Del's size bookkeeping per entry; hit/miss counted modulo 2^32",
+			"NOT decided (no contract within reach): Size == sum of the live entries' lengths and Size <= MaxSize (needs a finite sum over the map, which the encoding cannot express; only the per-entry deltas are proved); the LRU order of evictions and 'OnDelete exactly once per evicted entry'",
+			"UNCHECKED assumptions: the intrusive list's well-formedness (sentinel_linked, lru_items_linked) is assumed whenever the lock is acquired and at the eviction loop head, and is not re-proved at Unlock; total live bytes <= 2^62",
+			"the unsafe structPtr idiom is modelled as the inverse of taking the address of the embedded listItem field; callers do not modify key/value slices after Set",
+		},
+		Explanation: "monitor invariant on cache.lock (assumed at Lock, proved at every Unlock) plus two-state postconditions in single-goroutine mode; safety obligations for the list code rest on the assumed list well-formedness",
+		LevelText:   "proof (partial): object-invariant induction over all call histories and configs for panic-freedom, the count bound, the map view of Get/Set/Del/Clear/Stats and the refusal cases; the size total and the eviction order are outside the claim",
+		LevelNote:   "see assumptions: list well-formedness and the 2^62 byte bound are assumed, the size sum and LRU order are not decided; trusted: go/ssa lowering, govc encoding, solvers, specs/sync.spec",
+		Technique:   "contract-based deductive verification (govc): monitor invariant + two-state postconditions, heap model with embedded list nodes, WP over go/ssa, z3/cvc5",
+	})
+	ps = append(ps, &PropertyDef{
+		ID:       "C10",
+		Patterns: []string{"./cache"},
+		Funcs:    cacheFuncs,
+		Kinds:    map[string]bool{"guarded": true, "requires": true, "invariant": true, "nil": true, "ensures": true},
+		OnlyClauses: map[string][]string{
+			"cache.newCache": {"created"}, "cache.(*cache).Set": {"unlocked"}, "cache.(*cache).Get": {"unlocked"},
+			"cache.(*cache).Del": {"unlocked"}, "cache.(*cache).Clear": {"unlocked"}, "cache.(*cache).Stats": {"unlocked"},
+		},
+		NeedsClauses: map[string][]string{
+			"cache.(*cache).Stats": {"guarded/items_read", "guarded/size_read", "requires/not_held", "requires/held"},
+			"cache.(*cache).Set":   {"guarded/", "callback/requires/lock_released", "unlock/monitor_invariant/count_bound"},
+			"cache.(*cache).Get":   {"guarded/"}, "cache.(*cache).Del": {"guarded/"}, "cache.(*cache).Clear": {"guarded/"},
+		},
+		Assumptions: []string{
+			"PARTIAL CLAIM. Decided: lock discipline - every read and write of cache.items and cache.size happens with cache.lock held, the lock is never taken while held nor released while not held, OnDelete runs with the lock released, hit/miss are only touched through sync/atomic; the monitor invariant (map allocated, count bound, items keyed by their own key) holds at every Unlock although the protected state is forgotten at every Lock (other goroutines may have run)",
+			"under the platform's mutex semantics (mutual exclusion + happens-before, assumed) the discipline implies data-race freedom on those fields and that every Stats snapshot taken under the lock satisfies the count bound",
+			"NOT decided: per-key linearizability as such (argued on paper from the discipline: each method's effect on the map happens in one critical section; Set = eviction sections followed by one insertion section); accesses to the list links through *listItem pointers are not attributed to a cache object and are not lock-checked; conf / item.key / item.value immutability after construction is by inspection of the store scan, not an obligation",
+		},
+		Explanation: "guarded-by obligations generated at every field access, mutex protocol as call-site preconditions, monitor invariant proved at every Unlock with the protected state havocked at every Lock",
+		LevelText:   "proof (partial): lock discipline and monitor invariant for every path of every method; no interleaving semantics - the consequences for schedules rest on the assumed mutex semantics",
+		LevelNote:   "assumed: sync.Mutex mutual exclusion/happens-before, sync/atomic atomicity; see assumptions for what is not decided",
+		Technique:   "contract-based deductive verification (govc): guarded-by obligations + monitor invariants, WP over go/ssa, z3/cvc5",
+	})
 	out := map[string]*PropertyDef{}
 	for _, p := range ps {
 		out[p.ID] = p
